@@ -237,6 +237,11 @@ def extra_jobs(m, tier='quick', q3=True):
                         job(id='C.%s.sub.c%d.d%d.g%d%s.s%d' % (m.name, c, d, g, 'e' if is_entry else 'x', sd), entry='step_substitute', key=[c, d, g, is_entry, sd], props=['C04', 'C01', 'C02', 'C03'], quick_for=['C04'],
                             tier=tier if quick else 'thorough', carriers=[r'R_<.*>::processTransitions', r'R_<.*>::approvedByGuards', r'RegistryT<.*>::restore'],
                             case_key='%s/substitute/cfg=%d/dest=%d/guard=%d(%s)/instead=%d' % (m.name, c, d, g, 'entry' if is_entry else 'exit', sd), **base)
+    for (a_, b_) in [(x, y) for x in range(1, m.n) for y in range(1, m.n) if x != y and m.kinds[x] == 'L' and m.kinds[y] == 'L']:
+        for c in range(ncfg):
+            quick = c == 0 and (a_, b_) in ((1, m.n - 1), (m.n - 1, 1), (3, 4))
+            job(id='C.%s.pingpong.c%d.d%d.d%d' % (m.name, c, a_, b_), entry='step_pingpong', key=[c, a_, b_], props=['C04', 'C01', 'C03'], quick_for=['C04'], tier=tier if quick else 'thorough',
+                carriers=[r'R_<.*>::processTransitions', r'R_<.*>::approvedByGuards'], case_key='%s/approved rounds that keep asking for more/cfg=%d/%d<->%d' % (m.name, c, a_, b_), **dict(base, unwind=max(m.unwind, 20)))
     for d1 in range(1, m.n if q3 else 1):
         for d2 in range(1, m.n):
             for d3 in range(1, m.n):
@@ -267,7 +272,8 @@ def history_jobs(m, kinds=(0, 1, 2, 6), tier='quick'):
         job(id='C.%s.history.enter_redirect.d%d' % (m.name, d), entry='step_history_enter_redirect', key=[d], props=['C09', 'C02', 'C03'], quick_for=['C09'], tier=tier,
             carriers=[r'RV_<.*>::replayEnter', r'R_<.*>::initialEnter'], case_key='%s/replayEnter of an activation redirected to %d' % (m.name, d), **base)
     for k in kinds:
-        for d in range(1, m.n):
+        for d in range(0, m.n):           # d == 0: the root itself is a legal, recorded transition target
+            if d == 0 and k == 6: continue
             job(id='C.%s.history.%s.d%d' % (m.name, KIND_NAMES[k], d), entry='step_history_replay', key=[k, d], props=['C09', 'C01', 'C03'], quick_for=['C09'], tier=tier,
                 carriers=[r'R_<.*>::replayTransitions', r'R_<.*>::lastTransitionTo', r'R_<.*>::applyRequests', r'ControlT<.*>::pinLastTransition'], case_key='%s/history+replay/%s/dest=%d' % (m.name, KIND_NAMES[k], d), **base)
 def history_round_jobs(m, tier='quick'):
@@ -333,6 +339,12 @@ for _w in (1, 0):
     job(id='C.planpay.task.%s' % ('with' if _w else 'without'), tu=M_PLAN.tu, defs={'VM_PLAN_PAYLOAD': None}, entry='step_plan_payload', key=[1, _w], props=['C14', 'C06', 'C01'], quick_for=['C14'], unwind=14, objbits=12, timeout=900,
         carriers=[r'FullControlT<.*>::updatePlan', r'PayloadPlanT<.*>::append', r'TaskT<int>::TaskT|TaskListT<int.*>::emplace'], case_key='plan task %s payload/cfg=1' % ('with' if _w else 'without'))
 machine_jobs(M_PLAN, upd_kinds_quick=(0,))
+M_PLAN3 = Machine('plan3', 'tier_c/m_plan3.cpp', [-1, 0, 0, 2, 3, 3, 2, 6, 6], ['C', 'L', 'O', 'C', 'L', 'L', 'C', 'L', 'L'], unwind=16)
+for _l in (0, 1, 2):
+    for _r in (0, 1, 2):
+        if _l == 0 and _r == 0: continue
+        job(id='C.plan3.ortho.l%d.r%d' % (_l, _r), tu=M_PLAN3.tu, entry='step_plan_ortho', key=[_l, _r], props=['C06', 'C01'], unwind=16, objbits=12, timeout=900,
+            carriers=[r'O_<.*>::deepUpdatePlans', r'OS_<.*>::wideUpdatePlans', r'FullControlT<.*>::updatePlan'], case_key='orthogonal plan owner/left prong %s, right prong %s' % (('silent', 'succeeds', 'fails')[_l], ('silent', 'succeeds', 'fails')[_r]))
 M_PLAN2 = Machine('plan2', 'tier_c/m_plan2.cpp', [-1, 0, 0, 2, 2, 4, 4], ['C', 'L', 'C', 'L', 'C', 'L', 'L'], unwind=16)
 for mark in (0, 1, 2):
     job(id='C.plan2.nested.outer%d' % mark, tu=M_PLAN2.tu, entry='step_plan_nested', key=[mark], props=['C06', 'C01'], unwind=16, objbits=12, timeout=900,
@@ -348,6 +360,9 @@ for d1 in range(1, M_PAY.n):
         for has1, has2 in ((1, 1), (1, 0), (0, 1)):
             job(id='C.payload.pair.d%d.d%d.%d%d' % (d1, d2, has1, has2), tu=M_PAY.tu, defs=M_PAY.defs, entry='step_payload', key=[d1, has1, d2, has2], props=['C14', 'C01', 'C11'], unwind=12, objbits=12, timeout=900,
                 tier='quick' if (has1, has2) == (1, 1) else 'thorough', carriers=[r'TransitionT<int>::TransitionT'], case_key='payload/pair/%d,%d/%d%d' % (d1, d2, has1, has2))
+for d1, d2 in ((4, 1), (3, 5), (1, 4), (5, 2)):
+    job(id='C.payload.schedule_pair.d%d.d%d' % (d1, d2), tu=M_PAY.tu, defs=M_PAY.defs, entry='step_payload', key=[d1, 2, d2, 1], props=['C14', 'C01', 'C11'], unwind=12, objbits=12, timeout=900,
+        carriers=[r'RP_<.*>::scheduleWith', r'RP_<.*>::changeWith'], case_key='payload/scheduleWith(%d) + changeWith(%d) in one step' % (d1, d2))
 machine_jobs(M_PAY, kinds=(0,), upd_kinds_quick=(), tier='thorough')
 
 # ------------------------------------------------------------------ C16: logger / structure report (resumable machine, verbose and interface logging)
@@ -375,6 +390,13 @@ for d in (1, 3, 7, 8):
     job(id='C.log_ortho.logger.change.d%d' % d, tu=M_LOGO.tu, defs=M_LOGO.defs, entry='step_logger', key=[0, d], props=['C16', 'C01'], quick_for=['C16'], unwind=14, objbits=12, timeout=1200,
         unwindset={'_ZL23check_log_mirrors_tracev.0': 202}, carriers=[r'GuardControlT<.*>::cancelPendingTransitions', r'S_<.*>::deepEntryGuard'], case_key='verbose/logger mirrors callbacks/orthogonal machine/change dest=%d' % d)
 
+# C16 on the utility machine: rank()/utility() records; interface logging reports a method only for the states that override it (mixed overrides)
+for _mode, _name in ((2, 'interface'), (1, 'verbose')):
+    for _k, _r in ((4, 2), (5, 6)):
+        job(id='C.log_util_%s.logger.%s.r%d' % (_name, KIND_NAMES[_k], _r), tu='tier_c/m_util.cpp', defs={'VM_LOGGER': _mode, 'VM_MIXED_OVERRIDES': None}, entry='step_logger', key=[_k, _r], props=['C16', 'C01'], quick_for=['C16'],
+            tier='quick' if _mode == 2 else 'thorough', unwind=22, objbits=12, timeout=1200, unwindset={'_ZL23check_log_mirrors_tracev.0': 202},
+            carriers=[r'S_<.*>::wrapUtility', r'S_<.*>::wrapRank'], case_key='%s/logger mirrors rank and utility callbacks/%s region %d' % (_name, KIND_NAMES[_k], _r))
+
 M_UTILN = Machine('utiln', 'tier_c/m_util.cpp', [-1, 0, 0, 2, 3, 3, 2, 2, 7, 7, 9, 9], ['C', 'L', 'C', 'C', 'L', 'L', 'L', 'O', 'L', 'C', 'L', 'L'], defs={'VM_NESTED_UTIL': None}, unwind=26)
 for region, full, tier in ((2, 0, 'quick'), (3, 0, 'quick'), (9, 0, 'quick'), (2, 1, 'thorough')):
     job(id='C.utiln.utilize_nested.r%d%s' % (region, '.full' if full else ''), tu=M_UTILN.tu, defs=M_UTILN.defs, entry='step_utilize_nested', key=[region, full], props=['C12', 'C01', 'C02', 'C11'], unwind=26, objbits=12,
@@ -387,9 +409,9 @@ for _kind, _key in (('utilize', 0), ('change', 2)):
     job(id='C.utilr.%s_resumable_in_util.r2' % _kind, tu='tier_c/m_util.cpp', defs={'VM_RESUMABLE_IN_UTIL': None}, entry='step_utilize_nested', key=[2, _key], props=['C12', 'C01', 'C02', 'C11'], unwind=20, objbits=12, timeout=1500, mem_gb=24,
         cbmc_flags=['--slice-formula'], carriers=[r'C_<.*>::deepReportChangeResumable|C_<.*>::deepReportChange', r'C_<.*>::deepRequestChangeUtilitarian|C_<.*>::deepRequestUtilize'],
         case_key='resumable region (3 wide) as an option of a utilitarian region (2 wide)/%s region 2' % _kind)
-job(id='C.utilo.utilize_ortho_option.r2', tu='tier_c/m_util.cpp', defs={'VM_ORTHO_IN_UTIL': None}, entry='step_utilize_nested', key=[2, 0], props=['C12', 'C01', 'C02', 'C11'], unwind=24, objbits=12, timeout=1500, mem_gb=24,
+job(id='C.utilo.utilize_ortho_option.r2', tu='tier_c/m_util.cpp', defs={'VM_ORTHO_IN_UTIL': None}, entry='step_utilize_nested', key=[2, 0], props=['C12', 'C01', 'C02', 'C11'], unwind=28, objbits=12, timeout=1500, mem_gb=24,
     cbmc_flags=['--slice-formula'], carriers=[r'OS_<.*>::wideReportUtilize', r'O_<.*>::deepReportUtilize', r'C_<.*>::deepRequestUtilize'],
-    case_key='orthogonal region (composite sub-region first, utilitarian last) as an option of a utilitarian region/utilize region 2')
+    case_key='orthogonal region (composite sub-region first, utilitarian in the middle, composite last) as an option of a utilitarian region/utilize region 2')
 M_UTILH = Machine('utilh', 'tier_c/m_util.cpp', [-1, 0, 0, 2, 3, 3, 2], ['C', 'L', 'C', 'C', 'L', 'L', 'L'], defs={'VM_HEADLESS_UTIL': None}, unwind=18)
 job(id='C.utilh.utilize_headless.r2', tu=M_UTILH.tu, defs=M_UTILH.defs, entry='step_utilize_nested', key=[2, 1], props=['C12', 'C01', 'C02', 'C11'], tier='thorough', unwind=18, objbits=12, timeout=1500, mem_gb=24, cbmc_flags=['--slice-formula'],
     carriers=[r'C_<.*>::deepReportUtilize', r'S_<.*EmptyT.*>::wrapUtility|S_<.*>::wrapUtility', r'C_<.*>::deepRequestUtilize'], case_key='headless nested utility/utilize region 2 (anonymous head counts as 1)')
@@ -480,9 +502,10 @@ QUICK_TABLE = [
     (r'^C\.resumable\.q2\.',              []),
     (r'^C\.plan\.c\d',                   ['C06']),
     (r'^C\.plan2\.',                     ['C06']),
+    (r'^C\.plan3\.',                     ['C06']),
     (r'^C\.utiln\.utilize_nested\.r2$',  ['C12', 'C01']),
     (r'^C\.utilr\.',                    ['C12', 'C01']),
-    (r'^C\.utilo\.',                    ['C12']),
+    (r'^C\.utilo\.',                    ['C12', 'C02']),
     (r'^C\.util',                        ['C12']),
     (r'^C\.payload\.',                   ['C14']),
     (r'^C\.log_',                        ['C16']),
